@@ -290,6 +290,9 @@ func monC02(c *Case, tr *Trace) []Violation {
 						add("header_option_mismatch", o.End, "rpc %d: grpc.Header target after %s #%d holds %s; handler set %s", i, o.Kind, o.Idx, mdString(o.HeaderOptNow), mdString(m.hdr))
 					}
 				}
+				if d := o.Extra["opt2_differs"]; d != "" && (o.Kind == "invoke" || o.Code == CodeNil || o == terminal) {
+					add("repeated_option_location_not_filled", o.End, "rpc %d: the call passed each metadata / peer option twice; after %s #%d: %s", i, o.Kind, o.Idx, d)
+				}
 				isTerminal := o == terminal || (o.Kind == "recv" && o.Code == CodeNil && !respStreams(sp.Shape))
 				if isTerminal {
 					if o.TrailerNow != nil && !mdEqual(o.TrailerNow, m.trl) {
